@@ -60,7 +60,10 @@ def run(index, rep, tier):
                     return n.kind == "stmt" and isinstance(n.ast, ast.Assign) and norm(n.ast.value) == "memo[id(self)]"
                 for c in dcs:
                     cn = node_of_ast(cfg, c)
-                    ok = cn is not None and cfg.dominated_by(cn, lambda n: registers(n) or obtained(n), follow_exc=True)
+                    # `other = memo[id(self)]` establishes registration only when it completes normally (not on its KeyError edge)
+                    reach = cfg.reach([cfg.entry], avoid=lambda n: n is not cn and registers(n), follow_exc=True,
+                                      edge_ok=lambda s_, l_, d_: not (obtained(s_) and l_ != "e"))
+                    ok = cn is not None and all(x is not cn for x in reach)
                     rep.check(ok, "R12.1", f.qualname, "memo[id(self)] registered before " + norm(c)[:40], fn_where(f, c), "%s registers the new object in the memo before `%s`" % (f.qualname, norm(c)[:40]),
                               "%s deep-copies an attribute (`%s`) before registering the new object under memo[id(self)]: a back-reference from the attribute to the object (node -> edge -> node) produces a second copy of the object" % (f.qualname, norm(c)[:50]))
         # _annotations skipped + copied after
